@@ -73,6 +73,13 @@ pub fn run_c06(tier: Tier, seed: u64, index: u64, scratch: &Scratch, rec: &mut R
     let (mut base, _plan) = gen::baseline(seed, &opts);
     // configuration of the verifying host: its local time zone (POSIX TZ strings need no zoneinfo files)
     base.tz = Some(r.pick(&["UTC0", "XYZ10", "ABC-14", "EST5EDT", "IST-5:30", "NPT-5:45", "HST10", "<+13>-13"]).to_string());
+    // the caller may ask for a named summary (the parameter the recursion uses for delegated levels)
+    {
+        let mut er = Rng::stream(seed, "environment");
+        if er.chance(1, 3) {
+            base.step_name = Some(gen::simple_name(&mut er));
+        }
+    }
     let far = "9999-12-31T23:59:59Z";
     // the fault-free world (all expiries far in the future) must be accepted
     let mut b = base.clone();
